@@ -390,6 +390,14 @@ def _r093_selection(ctx):
                           {"K": k, "G": grid})
             uses_ow = contains(elt, lambda s_: s_.op == "attr" and s_.args[1] == "objective_weight")
             loss_ok = okr and (A.eq(elt, direct) or A.eq(elt, want))
+            if not loss_ok and len(gens) == 1 and not gens[0][1]:
+                # the pairwise walk: for o, c in zip(self.objectives_, grid.columns) - objectives_ has exactly one record per
+                # grid column in column order (R09.2), so the pair (o, c) is (objectives_[i], grid.columns[i])
+                okz = A.eq(gens[0][0], A.at(e, "zip(self.objectives_, G.columns)", {"G": grid, "zip": glob("builtins.zip")}))
+                b = {"O": mk("sub", k, const(0)), "Cc": mk("sub", k, const(1))}
+                forms = [A.at(e, f"{w} * O + self.constraint_weight * self.gammas_[Cc].max()", b)
+                         for w in ("self.objective_weight", "(1.0 - self.constraint_weight)")]
+                loss_ok = okz and any(A.eq(elt, f_) for f_ in forms)
     np_ok = v.op == "call" and v.args[0] is glob("numpy.argmin")
     ctx.ob("R09.3", fq, e.node, ok or np_ok, "best_idx_ is the first index attaining the minimum loss", construct="first argmin")
     ctx.ob("R09.3", fq, e.node, loss_ok, "loss(i) = (1 - constraint_weight)*objectives_[i] + constraint_weight*max(gammas_[grid "
